@@ -280,7 +280,7 @@ func c08(c *Ctx) {
 			v := g.VertexOf(call)
 			pos := c.P.Pos(call.Pos())
 			okW, _ := c.errNilAfterCall(add, g, v, func(fn *types.Func, cc *ast.CallExpr) bool {
-				return fn.Name() == "Write" && fn.Pkg() != nil && fn.Pkg().Path() == pathLevelDB
+				return fname(fn) == "Write" && fn.Pkg() != nil && fn.Pkg().Path() == pathLevelDB
 			})
 			r.Check(okW, "C08.S2", add.Name(), "Broadcast after the batch was written", pos, "dominated by the nil-error edge of db.Write", "readers are woken before (or although) the new batch was not written: they look it up, miss it and go back to sleep for good")
 			r.Check(lf.must[v]["OutputStream.messagesMu"] == "W", "C08.S2", add.Name(), "Broadcast with messagesMu held", pos, "lockset "+lf.must[v].String(), "Add broadcasts without holding messagesMu: a reader between its look-up and Wait misses the wake-up")
@@ -326,7 +326,7 @@ func c08(c *Ctx) {
 		for _, call := range astx.Calls(ctor.Body(), false) {
 			if fn := astx.Callee(info, call); fn != nil && isFunc(fn, "sync", "NewCond") && len(call.Args) == 1 {
 				if u, isU := ast.Unparen(call.Args[0]).(*ast.UnaryExpr); isU && u.Op == token.AND {
-					if se, isSel := ast.Unparen(u.X).(*ast.SelectorExpr); isSel && se.Sel.Name == "messagesMu" {
+					if se, isSel := ast.Unparen(u.X).(*ast.SelectorExpr); isSel && astx.FieldSel(info, se) != nil && astx.FieldSel(info, se) == c.P.Field("outputstream", "OutputStream", "messagesMu") {
 						ok = true
 					}
 				}
@@ -356,6 +356,20 @@ func c08(c *Ctx) {
 						onEveryPath := g.DominatedBy(mutV, func(x *cfgx.Vertex) bool { return x.ID == v }) || g.PostDominatedBy(mutV, g.Exit, func(x *cfgx.Vertex) bool { return x.ID == v })
 						if c.lockFlow(fi, g, lockSet{}).must[v]["OutputStream.cacheMu"] == "W" && onEveryPath {
 							ok = true
+						}
+					}
+				}
+				// … or a call of a helper that evicts the entry of its parameter on every path, under cacheMu
+				if call, isC := n.(*ast.CallExpr); isC {
+					if fn := astx.Callee(info, call); fn != nil {
+						if cal := c.P.FuncOf(fn); cal != nil && cal != fi {
+							if pi := c.evictorParam(cal, cacheField); pi >= 0 && pi < len(call.Args) && astx.Same(info, call.Args[pi], id) {
+								v := g.VertexOf(call)
+								onEveryPath := g.DominatedBy(mutV, func(x *cfgx.Vertex) bool { return x.ID == v }) || g.PostDominatedBy(mutV, g.Exit, func(x *cfgx.Vertex) bool { return x.ID == v })
+								if onEveryPath {
+									ok = true
+								}
+							}
 						}
 					}
 				}
@@ -428,7 +442,7 @@ func c08(c *Ctx) {
 			}
 			n++
 			okFound, _ := c.errNilAfterCall(gu, g, v.ID, func(fn *types.Func, cc *ast.CallExpr) bool {
-				return fn.Name() == "Get" && fn.Pkg() != nil && fn.Pkg().Path() == pathLevelDB
+				return fname(fn) == "Get" && fn.Pkg() != nil && fn.Pkg().Path() == pathLevelDB
 			})
 			r.Check(okFound, "C08.S3", gu.Name(), "only found batches are cached", c.P.Pos(as.Pos()), "cache insert on the nil-error edge of db.Get", "a failed look-up is cached: a batch added later under that id stays invisible")
 			lf := c.lockFlow(gu, g, lockSet{})
@@ -557,4 +571,49 @@ func stripConv(info *types.Info, e ast.Expr) ast.Expr {
 		}
 		return e
 	}
+}
+
+// evictorParam: fi deletes cache[<parameter k>] on every path from entry to exit while holding cacheMu in write mode
+// (acquired by itself); returns k, or -1.
+func (c *Ctx) evictorParam(fi *load.FuncInfo, cacheField *types.Var) int {
+	if fi.Body() == nil || cacheField == nil {
+		return -1
+	}
+	info := fi.Info()
+	var params []types.Object
+	for _, fld := range fi.FuncType().Params.List {
+		for _, nm := range fld.Names {
+			params = append(params, info.Defs[nm])
+		}
+	}
+	g := c.Graph(fi)
+	lf := c.lockFlow(fi, g, lockSet{})
+	res := -1
+	for _, call := range astx.Calls(fi.Body(), false) {
+		if astx.Builtin(info, call) != "delete" || len(call.Args) != 2 {
+			continue
+		}
+		se, ok := ast.Unparen(call.Args[0]).(*ast.SelectorExpr)
+		if !ok || astx.FieldSel(info, se) != cacheField {
+			continue
+		}
+		id, ok := ast.Unparen(call.Args[1]).(*ast.Ident)
+		if !ok {
+			continue
+		}
+		v := g.VertexOf(call)
+		if v < 0 || lf.must[v]["OutputStream.cacheMu"] != "W" {
+			continue
+		}
+		// on every path through the function
+		if g.Reach(g.Entry, func(x int) bool { return x == v }, nil)[g.Exit] {
+			continue
+		}
+		for k, p := range params {
+			if p == astx.Obj(info, id) && len(defsOf(info, fi.Node(), p)) == 0 {
+				res = k
+			}
+		}
+	}
+	return res
 }
